@@ -156,6 +156,12 @@ let run_c09 toks =
     let cass = (match read_all_cas bytes ft with Some l -> l | None -> failwith "scan cas") in
     let l2 = Printf.sprintf "scan files=%d %s cas=%d %s" (List.length files) (cksum_str (String.concat "\n" (List.map dump_file files)))
         (List.length cass) (cksum_str (String.concat "\n" (List.map dump_cas cass))) in
+    let l3 = (match stream_walk bytes with
+        | Some (fb, cb) ->
+          let cat l = Array.of_list (List.map int_of_n (List.concat l)) in
+          let fa = cat fb and ca = cat cb in
+          Printf.sprintf "stream files=%d %s cas=%d %s" (List.length fb) (cksum fa 0 (Array.length fa)) (List.length cb) (cksum ca 0 (Array.length ca))
+        | None -> "stream MODEL-ERROR") in
     let nq = ref 0 in
     let qs = List.filter_map (fun op -> match op with
         | ["qf"; h] ->
@@ -178,7 +184,7 @@ let run_c09 toks =
                   (match found with Some c -> Printf.sprintf "qc%d found %s" !nq (cksum_str (dump_cas c)) | None -> Printf.sprintf "qc%d notfound" !nq)) in
           incr nq; Some r
         | _ -> None) ops in
-    l1 :: l2 :: qs
+    l1 :: l2 :: l3 :: qs
 
 let eight = S (S (S (S (S (S (S (S O)))))))
 let disk_candidates bytes ft qs =
